@@ -897,19 +897,58 @@ func patchAllIn(p *Program, r *Reporter, a *anchors, fn *ssa.Function, J map[str
 
 // isLenOfInstructions: v is len(e.<instructions field>) (the emitter's output).
 func instructionsField(a *anchors) string {
-	// the field emit appends to: the Store in emit whose value is an append
-	for _, b := range a.emit.Blocks {
-		for _, ins := range b.Instrs {
-			if st, ok := ins.(*ssa.Store); ok {
-				if _, isApp := isBuiltinCall(st.Val, "append"); isApp {
-					if k := fieldKey(st.Addr); k != "" {
-						return k
+	// the field emit appends to: the Store in emit — or in the part of it
+	// that does the appending, when emit is split into encoding and
+	// appending — whose value is an append
+	for _, f := range emitterParts(a) {
+		for _, b := range f.Blocks {
+			for _, ins := range b.Instrs {
+				if st, ok := ins.(*ssa.Store); ok {
+					if _, isApp := isBuiltinCall(st.Val, "append"); isApp {
+						if k := fieldKey(st.Addr); k != "" {
+							return k
+						}
 					}
 				}
 			}
 		}
 	}
 	return ""
+}
+
+// emitterParts: the emitter and the functions of the compiler it is made of —
+// those it calls that nothing else calls (encode, append).
+func emitterParts(a *anchors) []*ssa.Function {
+	out := []*ssa.Function{a.emit}
+	if curProgram == nil {
+		return out
+	}
+	seen := map[*ssa.Function]bool{a.emit: true}
+	for i := 0; i < len(out) && i < 6; i++ {
+		for _, b := range out[i].Blocks {
+			for _, ins := range b.Instrs {
+				cc := callOf(ins)
+				if cc == nil || cc.StaticCallee() == nil {
+					continue
+				}
+				g := cc.StaticCallee()
+				if seen[g] || fnPkg(g) == nil || fnPkg(g).Pkg.Path() != Mod || len(g.Blocks) == 0 {
+					continue
+				}
+				only := true
+				for _, s := range staticCallSites(curProgram, g) {
+					if !seen[top(s.Parent())] {
+						only = false
+					}
+				}
+				if only {
+					seen[g] = true
+					out = append(out, g)
+				}
+			}
+		}
+	}
+	return out
 }
 
 func isLenOfField(v ssa.Value, field string) (*ssa.Call, bool) {
@@ -1548,6 +1587,20 @@ func ruleNarrow(p *Program, r *Reporter) {
 					}
 					continue
 				}
+				if ex, isEx := arg.(*ssa.Extract); isEx && ex.Index == 0 {
+					if hc, isCall := ex.Tuple.(*ssa.Call); isCall {
+						// narrowing delegated to a helper that says whether the value
+						// fitted: the "no" must end up in a record that Prepare reports
+						key := p.FnName(fn) + "/16-bit write of " + describeVal(p, fn, call)
+						ok, why := narrowReportingHelperOK(p, hc)
+						if ok {
+							r.OkNT(key, p.Pos(call.Pos()), why)
+						} else {
+							r.Fail(key, p.Pos(call.Pos()), why)
+						}
+						continue
+					}
+				}
 				conv, ok := arg.(*ssa.Convert)
 				if !ok {
 					r.Undecided(siteKey(p, fn, call.Pos(), "16-bit write"), p.Pos(call.Pos()), "value written is not a conversion")
@@ -1653,6 +1706,13 @@ func narrowHelperOK(p *Program, hc *ssa.Call) (bool, string) {
 	if rec == "" {
 		return false, "helper " + h.Name() + " range-checks the value but records the failure nowhere: the truncated program is still accepted"
 	}
+	return recordReportedByPrepare(p, rec, h.Name())
+}
+
+// recordReportedByPrepare: Prepare turns the field that records a range
+// failure into an error.
+func recordReportedByPrepare(p *Program, rec, hname string) (bool, string) {
+	h := struct{ name string }{hname}
 	a, _ := p.Anchors()
 	if a.prepare == nil {
 		return false, "cannot find Prepare"
@@ -1677,12 +1737,160 @@ func narrowHelperOK(p *Program, hc *ssa.Call) (bool, string) {
 				}
 				// once the record is seen set, every way on ends in a failing return
 				if iff.Cond == ssa.Value(ld) && allReturnsFail(iff.Block().Succs[0]) {
-					return true, "range-checked in " + h.Name() + "; failure recorded in " + rec + " and reported by Prepare"
+					return true, "range-checked in " + h.name + "; failure recorded in " + rec + " and reported by Prepare"
 				}
 			}
 		}
 	}
 	return false, "the range failure recorded in " + rec + " is never turned into an error by Prepare"
+}
+
+// narrowReportingHelperOK: the callee returns (uint16, bool): it converts only
+// under a range test and then says true, says false otherwise; and wherever
+// the call is made the "false" is recorded in a field that Prepare reports —
+// directly, or after being handed up as a result.
+func narrowReportingHelperOK(p *Program, hc *ssa.Call) (bool, string) {
+	h := hc.Call.StaticCallee()
+	if h == nil || fnPkg(h) == nil || !IsLibPath(fnPkg(h).Pkg.Path()) {
+		return false, "the 16-bit value comes from a call that cannot be analysed"
+	}
+	rs := sigResults(h)
+	if len(rs) != 2 || !isBoolType(rs[1]) {
+		return false, "the 16-bit value comes from a call of unrecognised shape"
+	}
+	for _, b := range h.Blocks {
+		ret, ok := terminator(b).(*ssa.Return)
+		if !ok || len(ret.Results) != 2 {
+			continue
+		}
+		okv, isK := returnOperand(ret, 1).(*ssa.Const)
+		if !isK || okv.Value == nil || okv.Value.Kind() != constant.Bool {
+			return false, "helper " + h.Name() + " does not say plainly whether the value fitted"
+		}
+		switch v := returnOperand(ret, 0).(type) {
+		case *ssa.Const:
+			if constant.BoolVal(okv.Value) {
+				// a constant reported as fitting: fine
+			}
+		case *ssa.Convert:
+			if !constant.BoolVal(okv.Value) {
+				continue
+			}
+			if !guardedByUpperBound(v.X, ret) {
+				return false, "helper " + h.Name() + " truncates to 16 bits on a path that is not guarded by an upper-bound test"
+			}
+		default:
+			return false, "helper " + h.Name() + " returns a value of unrecognised shape"
+		}
+	}
+	// where does the "no" go?
+	var fits ssa.Value
+	if hc.Referrers() != nil {
+		for _, ref := range *hc.Referrers() {
+			if ex, ok := ref.(*ssa.Extract); ok && ex.Index == 1 {
+				fits = ex
+			}
+		}
+	}
+	if fits == nil {
+		return false, "what helper " + h.Name() + " says about the range is not looked at: a program that is too large is accepted with a truncated operand"
+	}
+	var recordOf func(v ssa.Value, depth int) string
+	recordOf = func(v ssa.Value, depth int) string {
+		if depth > 3 || v.Referrers() == nil {
+			return ""
+		}
+		for _, ref := range *v.Referrers() {
+			switch x := ref.(type) {
+			case *ssa.UnOp:
+				if x.Op == token.NOT {
+					if rec := recordOf(x, depth); rec != "" {
+						return rec
+					}
+				}
+			case *ssa.Phi:
+				// merged with "true" (nothing to check on the other paths)
+				okPhi := true
+				for _, e := range x.Edges {
+					if e == v {
+						continue
+					}
+					if k, ok := e.(*ssa.Const); !ok || k.Value == nil || k.Value.Kind() != constant.Bool || !constant.BoolVal(k.Value) {
+						okPhi = false
+					}
+				}
+				if okPhi {
+					if rec := recordOf(x, depth); rec != "" {
+						return rec
+					}
+				}
+			case *ssa.If:
+				// the branch taken when the value did not fit stores true into a field
+				neg := false
+				c := x.Cond
+				if u, ok := c.(*ssa.UnOp); ok && u.Op == token.NOT {
+					neg, c = true, u.X
+				}
+				_ = c
+				bad := x.Block().Succs[1]
+				if neg {
+					bad = x.Block().Succs[0]
+				}
+				if _, isNot := v.(*ssa.UnOp); isNot {
+					// v is already the negation: its true edge is the failure
+					bad = x.Block().Succs[0]
+				}
+				for _, ins := range bad.Instrs {
+					if st, ok := ins.(*ssa.Store); ok {
+						if k, ok := st.Val.(*ssa.Const); ok && k.Value != nil && k.Value.Kind() == constant.Bool && constant.BoolVal(k.Value) {
+							if fk := fieldKey(st.Addr); fk != "" {
+								return fk
+							}
+						}
+					}
+				}
+			case *ssa.Return:
+				// handed up: every caller must record it
+				g := x.Parent()
+				idx := -1
+				for i, rv := range x.Results {
+					if rv == v {
+						idx = i
+					}
+				}
+				sites := staticCallSites(p, g)
+				if idx < 0 || len(sites) == 0 {
+					continue
+				}
+				rec := ""
+				for _, s := range sites {
+					sv, ok := s.(ssa.Value)
+					if !ok || sv.Referrers() == nil {
+						return ""
+					}
+					got := ""
+					for _, r2 := range *sv.Referrers() {
+						if ex, ok := r2.(*ssa.Extract); ok && ex.Index == idx {
+							got = recordOf(ex, depth+1)
+						}
+					}
+					if got == "" || rec != "" && got != rec {
+						return ""
+					}
+					rec = got
+				}
+				if rec != "" {
+					return rec
+				}
+			}
+		}
+		return ""
+	}
+	rec := recordOf(fits, 0)
+	if rec == "" {
+		return false, "helper " + h.Name() + " range-checks the value, but on some path from its call the refusal is recorded nowhere: the truncated program is still accepted"
+	}
+	return recordReportedByPrepare(p, rec, h.Name())
 }
 
 // allReturnsFail: every return reachable from b is a failing one (and one is reachable).
